@@ -7,7 +7,7 @@ printed as KNOWN-FINDING lines), 1 = violation (VIOLATION line printed),
 import atexit, json, os, re, shutil, subprocess, sys, tempfile, time
 
 VERIF = os.path.dirname(os.path.dirname(os.path.abspath(__file__)))
-REPO = "/repo"
+REPO = os.environ.get("VERIF_REPO", "/repo")   # development/mutation runs may point at a scratch worktree
 SPEC = os.path.join(VERIF, "spec")
 HARNESS = os.path.join(VERIF, "harness")
 JAVA_CP = "/opt/veriftools/tla/tla2tools.jar:/opt/veriftools/tla/CommunityModules-deps.jar"
@@ -84,9 +84,16 @@ class Ctx:
         repl = {} if os.path.exists(target) else {target: gen}
         json.dump({"Replace": repl}, open(ov, "w"))
         self.overlay = ov
+        modargs = []
+        if REPO != "/repo":
+            # same module, but the replace directive points at the scratch worktree
+            mf = self.path("gen", "go.mod")
+            open(mf, "w").write(open(os.path.join(HARNESS, "go.mod")).read().replace("=> /repo", "=> " + REPO))
+            shutil.copy(os.path.join(HARNESS, "go.sum"), self.path("gen", "go.sum"))
+            modargs = ["-modfile", mf]
         for c in cmds:
             out = self.path("bin", c + ("-race" if race else ""))
-            args = ["go", "build", "-tags", "verif", "-overlay", ov, "-o", out]
+            args = ["go", "build", "-tags", "verif", "-overlay", ov, "-o", out] + modargs
             if race:
                 args.append("-race")
             args.append("./cmd/" + c)
@@ -244,10 +251,15 @@ def match_sig(pat, sig):
 
 
 def load_findings(prop):
-    p = os.path.join(VERIF, "known_findings.json")
-    if not os.path.exists(p):
-        return []
-    return [f for f in json.load(open(p))["findings"] if f["property"] == prop]
+    out = []
+    ps = [os.path.join(VERIF, "known_findings.json")]
+    d = os.path.join(VERIF, "known_findings.d")
+    if os.path.isdir(d):
+        ps += sorted(os.path.join(d, f) for f in os.listdir(d) if f.endswith(".json"))
+    for p in ps:
+        if os.path.exists(p):
+            out += [f for f in json.load(open(p))["findings"] if f["property"] == prop]
+    return out
 
 
 def read_ndjson(path):
